@@ -211,15 +211,16 @@ VALIDATED = {
     # adt regex -> (allowed constructing functions (regex on ids without trait args), reason)
     r"^miden_core::stack::outputs::StackOutputs$": r"StackOutputs::new$|StackOutputs@(Clone::clone|Default::default)$",
     r"^miden_core::stack::inputs::StackInputs$": r"StackInputs::new$|StackInputs@(Clone::clone|Default::default|Deserializable::read_from)$",
-    r"^miden_core::program::Kernel$": r"Kernel::new$|Kernel@(Clone::clone|Default::default|Deserializable::read_from)$",
+    r"^miden_core::program::Kernel$": r"Kernel::new$|Kernel@(Clone::clone|Default::default)$",
     r"^miden_assembly::library::path::LibraryPath$": r"LibraryPath::(new|kernel_path|exec_path|anon_path|join|strip_first|strip_last)$|LibraryPath@(Clone::clone|Default::default)$",
     r"^miden_assembly::procedures::ProcedureName$": r"ProcedureName::main$|ProcedureName@(Clone::clone|Default::default|TryFrom::try_from)$",
     r"^miden_assembly::library::LibraryNamespace$": r"LibraryNamespace::new$|LibraryNamespace@Clone::clone$",
     r"^miden_air::options::ExecutionOptions$": r"ExecutionOptions::new$|ExecutionOptions@(Clone::clone|Default::default)$",
 }
 # readers allowed to build the struct directly because every field they read is validated by its own reader
-DIRECT_READERS = {"StackInputs": "elements are read with Felt::read_from, which rejects non-canonical values; the type has no other invariant",
-                  "Kernel": "digests are read with RpoDigest::read_from; the count is a u8"}
+DIRECT_READERS = {"StackInputs": "elements are read with Felt::read_from, which rejects non-canonical values; the type has no other invariant"}
+# (Kernel used to be listed here with the reason "the count is a u8": the reason was wrong - the count is read as u16, and
+#  Kernel::new also rejects duplicates and orders the hashes - so the exemption hid finding F30.)
 
 
 def r3_validated_constructors(ctx, F):
@@ -252,6 +253,12 @@ def r3_validated_constructors(ctx, F):
     ctx.oblig(ok)
     if not ok:
         ctx.violation("reader-bypasses-constructor|StackOutputs", so.loc(), "StackOutputs::read_from does not go through StackOutputs::new")
+    kr = F.fn(r"^miden_core::program::Kernel@Deserializable::read_from$")
+    ctx.inst(key="Kernel::read_from", nontrivial=True)
+    ok = any(c.endswith("Kernel::new") for bi, c, t in kr.calls())
+    ctx.oblig(ok)
+    if not ok:
+        ctx.violation("reader-bypasses-constructor|Kernel", kr.loc(), "Kernel::read_from does not go through Kernel::new: more than MAX_KERNEL_PROCEDURES hashes and duplicated hashes are accepted from untrusted bytes")
     lp = F.fn(r"^miden_assembly::library::path::LibraryPath@Deserializable::read_from$")
     ok = any(re.search(r"LibraryPath::new$|LibraryPath@TryFrom::try_from$", c) for bi, c, t in lp.calls())
     ctx.oblig(ok)
@@ -329,6 +336,211 @@ def r4_canonical_elements(ctx, F):
             ctx.violation("non-canonical-conversion|%s" % short(fn.id), fn.loc(), "%s must convert integers with Felt::try_from (rejecting values >= modulus), calls: %s" % (short(fn.id), sorted(set(short(c) for c in calls))[:8]))
 
 
+# ---- R5: slicing calls of the standard library on the reader paths are guarded ----------------------------------------------------
+SLICERS = r"^core::str::str::(split_at|split_at_mut)$|^core::slice::\[T\]::(split_at|split_at_mut)$"
+
+
+def _str_const(F, name):
+    """the literal of a named &str constant, read from its definition line (the fact extractor does not evaluate &str)"""
+    c = F.consts.get(name)
+    if not c:
+        return None
+    try:
+        line = open("/repo/" + c["file"]).read().split("\n")[c["line"] - 1]
+    except (OSError, IndexError):
+        return None
+    m = re.search(r'=\s*"((?:[^"\\]|\\.)*)"\s*;', line)
+    return bytes(m.group(1), "utf-8").decode("unicode_escape") if m else None
+
+
+def _named_str(F, fn, o, depth=6):
+    """the named &str constant an operand denotes, through copies, reborrows and derefs"""
+    while depth > 0 and o is not None:
+        depth -= 1
+        if o.get("named"):
+            return o["named"]
+        if "l" not in o:
+            return None
+        ds = fn.defs().get(o["l"], ())
+        if len(ds) != 1 or ds[0][0] != "s":
+            return None
+        r = ds[0][2]["r"]
+        if r["k"] == "use":
+            o = r["o"]
+        elif r["k"] == "ref":
+            o = {"l": r["p"]["l"]} if "l" in r["p"] else None
+        else:
+            return None
+    return None
+
+
+def _usize_value(F, fn, o, depth=8):
+    """evaluate an operand built from integer constants, lengths of named &str constants and + (else None)"""
+    if depth == 0 or o is None:
+        return None
+    o = resolve_copy(fn, o)
+    if "c" in o and isinstance(o["c"], int):
+        return o["c"]
+    if "l" not in o:
+        return None
+    if o.get("p"):
+        # field 0 of a checked-arithmetic pair
+        fs = [x for x in o["p"] if isinstance(x, dict)]
+        if len(o["p"]) == 1 and fs and fs[0].get("f") == "0":
+            return _usize_value(F, fn, {"l": o["l"]}, depth - 1)
+        return None
+    dc = def_call(fn, o)
+    if dc is not None:
+        t = dc[2]
+        if re.search(r"^core::str::str::len$", strip_targs(t["f"].get("fn", ""))):
+            nm = _named_str(F, fn, t["args"][0])
+            sv = _str_const(F, nm) if nm else None
+            return len(sv.encode()) if sv is not None else None
+        return None
+    r = def_rvalue(fn, o)
+    if r is None:
+        return None
+    if r["k"] == "bin" and r["op"] in ("+", "+?"):
+        x, y = _usize_value(F, fn, r["a"], depth - 1), _usize_value(F, fn, r["b"], depth - 1)
+        return x + y if x is not None and y is not None else None
+    return None
+
+
+def _base_local(fn, o, depth=10):
+    """the local an operand ultimately refers to, through copies, reborrows and derefs"""
+    while depth > 0 and o is not None and "l" in o:
+        depth -= 1
+        ds = fn.defs().get(o["l"], ())
+        if len(ds) != 1 or ds[0][0] != "s":
+            return o["l"]
+        r = ds[0][2]["r"]
+        if r["k"] == "use" and "l" in r["o"]:
+            o = r["o"]
+        elif r["k"] == "ref" and "l" in r["p"]:
+            o = {"l": r["p"]["l"]}
+        else:
+            return o["l"]
+    return o.get("l") if o else None
+
+
+def r5b_guarded_unwraps(ctx, F):
+    """every Option/Result unwrap or expect on the paths of the readers (validating constructors and helpers included - the
+    symbolic exploration of C19-R1 replaces some of them by summaries) cannot fail: a widening integer conversion, or the first
+    character of a string that the false branch of `is_empty()` on the same string dominates.  Any other unwrap of a value
+    computed from the input is reported."""
+    roots = [k for name, k, extra in entry_points(F)]
+    reach = F.reachable(roots)
+    scanned = 0
+    n = 0
+    WIDEN = {("u8", "usize"), ("u16", "usize"), ("u32", "usize"), ("u8", "u64"), ("u16", "u64"), ("u32", "u64"), ("u8", "u32"), ("u16", "u32"), ("u8", "u16"), ("usize", "u64")}
+    for fid in sorted(reach):
+        fn = F.fns.get(fid)
+        if fn is None or not re.match(r"^miden_", fid):
+            continue
+        scanned += 1
+        for bi, cal, t in fn.calls():
+            c = strip_targs(cal)
+            if not re.search(r"^core::(option::Option|result::Result)::(unwrap|expect)$", c):
+                continue
+            n += 1
+            dc = def_call(fn, resolve_copy(fn, t["args"][0]))
+            src = strip_targs(dc[2]["f"].get("fn", "?")) if dc else "?"
+            key = "%s|%s" % (short(fid), src.rsplit("::", 2)[-2] + "::" + src.rsplit("::", 1)[-1] if "::" in src else src)
+            ctx.inst(key="unwrap@" + key, nontrivial=True)
+            ok, why = False, "its value comes from %s, which yields None / Err for some inputs, and no dominating check excludes them" % src
+            if dc is not None and re.search(r"TryInto::try_into$|TryFrom::try_from$", src):
+                ga = tuple(str(g) for g in (dc[2]["f"].get("ga") or [])[:2])
+                if src.endswith("try_from"):
+                    ga = ga[::-1]
+                ok = ga in WIDEN
+                why = "the conversion %s -> %s can fail" % ga if len(ga) == 2 else why
+            elif dc is not None and re.search(r"Chars@Iterator::next$", src):
+                def producer(o, depth=6):
+                    # the call that produced the value an operand refers to, through copies and reborrows
+                    while depth > 0 and o is not None and "l" in o:
+                        depth -= 1
+                        d0 = def_call(fn, resolve_copy(fn, o))
+                        if d0 is not None:
+                            return d0
+                        r0 = def_rvalue(fn, o)
+                        if r0 is not None and r0["k"] == "ref" and "l" in r0["p"]:
+                            o = {"l": r0["p"]["l"]}
+                        else:
+                            return None
+                    return None
+                it = producer(dc[2]["args"][0])
+                if it is not None and not re.search(r"str::chars$", strip_targs(it[2]["f"].get("fn", ""))):
+                    it = None
+                base = _base_local(fn, it[2]["args"][0]) if it is not None else None
+                for sb, b in enumerate(fn.blocks):
+                    tt = b["t"]
+                    if tt["k"] != "switch":
+                        continue
+                    d2 = def_call(fn, resolve_copy(fn, tt["o"]))
+                    if d2 is None or not re.search(r"str::is_empty$", strip_targs(d2[2]["f"].get("fn", ""))):
+                        continue
+                    arms = dict((a[0], a[1]) for a in tt["arms"])
+                    if 0 in arms and arms[0] != tt["else"] and fn.dominates(arms[0], bi) and base is not None and _base_local(fn, d2[2]["args"][0]) == base:
+                        ok = True
+                why = "the string may be empty: no dominating `is_empty()` test of the same string"
+            ctx.oblig(ok)
+            if not ok:
+                ctx.violation("unguarded-unwrap|%s" % key, fn.loc(t["ln"]), "%s unwraps a value that can be absent: %s; reachable from %s - an input reaching it makes the reader panic"
+                              % (short(fid), why, ", ".join(sorted(set(short(r) for r in roots if fid in F.reachable([r]))))[:240]))
+    ctx.floor("functions-on-reader-paths", scanned, 80)
+    ctx.floor("unwrap-sites-on-reader-paths", n, 3)
+
+
+def r5_guarded_slicing(ctx, F):
+    """every `split_at(mid)` on the paths of the readers (including the validating constructors they call) has a receiver whose
+    length is known to be at least `mid`: the call is dominated by the true branch of `receiver.starts_with(PREFIX)` with
+    len(PREFIX) >= mid, or by a comparison of the receiver's length.  Otherwise some input makes the reader panic."""
+    roots = [k for name, k, extra in entry_points(F)]
+    reach = F.reachable(roots)
+    n = 0
+    for fid in sorted(reach):
+        fn = F.fns.get(fid)
+        if fn is None or not re.match(r"^miden_", fid):
+            continue
+        for bi, cal, t in fn.calls():
+            if not re.search(SLICERS, strip_targs(cal)):
+                continue
+            n += 1
+            key = "%s|split_at" % short(fid)
+            ctx.inst(key=key, nontrivial=True)
+            mid = _usize_value(F, fn, t["args"][1])
+            recv_src = fn.backward_slice(t["args"][0]["l"], through_calls=True)["locals"] if "l" in t["args"][0] else set()
+            guard = None
+            for sb, b in enumerate(fn.blocks):
+                tt = b["t"]
+                if tt["k"] != "switch":
+                    continue
+                dc = def_call(fn, resolve_copy(fn, tt["o"]))
+                if dc is None or not re.search(r"^core::str::str::starts_with$", strip_targs(dc[2]["f"].get("fn", ""))):
+                    continue
+                arms = dict((a[0], a[1]) for a in tt["arms"])
+                if 0 not in arms or not fn.dominates(tt["else"], bi):
+                    continue
+                nm = _named_str(F, fn, dc[2]["args"][1])
+                sv = _str_const(F, nm) if nm else None
+                ra = dc[2]["args"][0]
+                same_recv = "l" in ra and bool(set(fn.backward_slice(ra["l"], through_calls=True)["locals"]) & set(recv_src))
+                if sv is not None and same_recv:
+                    guard = max(guard or 0, len(sv.encode()))
+            ok = mid is not None and guard is not None and guard >= mid
+            ctx.oblig(ok)
+            ctx.analysed("%s split_at(%s) guarded by a prefix of %s bytes" % (fn.loc(t["ln"]), mid, guard))
+            if not ok:
+                ctx.violation("unguarded-slicing|%s" % short(fid), fn.loc(t["ln"]),
+                              "%s splits its input at byte %s, but the only thing known about the input there is a prefix of %s bytes: an input consisting of just that prefix (or the prefix and fewer than %s further bytes) "
+                              "makes split_at panic - reachable from %s" % (short(fid), mid if mid is not None else "<not constant>", guard if guard is not None else "no", (mid - guard) if (mid is not None and guard is not None) else "the missing",
+                                                                             ", ".join(sorted(short(r) for r in roots if fid in F.reachable([r])))[:200]))
+    # the expected number of slicing sites may legitimately be zero (slicing replaced by checked accessors): the anti-vacuity
+    # floor is on the functions scanned, and the matcher is exercised on the canonical callee names
+    assert all(re.search(SLICERS, x) for x in ("core::str::str::split_at", "core::slice::[T]::split_at_mut"))
+    ctx.floor("functions-on-reader-paths", len([f for f in reach if f.startswith("miden_") and f in F.fns]), 80)
+
+
 def run(ctx, F):
     ctx.trusted += ["rustc MIR via mirfacts", "mirsym; symbolic ByteReader model", "winter-utils / miden-crypto readers are trusted (external crates)"]
     ctx.assumptions += ["loops over input-sized collections are explored for one iteration of the body", "string validators are abstract",
@@ -337,3 +549,5 @@ def run(ctx, F):
     ctx.run_rule("C19-R2", "accepted values re-encode: symbolic round trip of the untrusted-input types", r2_reader_writer, F)
     ctx.run_rule("C19-R3", "types with validating constructors are built only there (or Default/Clone), have no public fields, and their readers go through the constructor", r3_validated_constructors, F)
     ctx.run_rule("C19-R4", "integer inputs are checked against the field modulus for every parameter", r4_canonical_elements, F)
+    ctx.run_rule("C19-R5", "slicing calls on the reader paths (str / slice split_at in the readers and the validating constructors they call) are dominated by a check that makes the receiver long enough", r5_guarded_slicing, F)
+    ctx.run_rule("C19-R5b", "unwrap / expect on the reader paths (readers, validating constructors and the helpers they call) cannot fail: widening conversions, or the first character of a string dominated by the false branch of is_empty() on that string", r5b_guarded_unwraps, F)
